@@ -25,13 +25,15 @@ META = {
 }
 
 
-def h_protocol(ctx: Any, code: str, n: int, depth: int, stack: int = 200, split_flop: bool = False) -> None:
+def h_protocol(ctx: Any, code: str, n: int, depth: int, stack: int = 200, split_flop: bool = False,
+               partial: bool = False, one_by_one: bool = False) -> None:
     from pokerkit.notation import HandHistory
     C.native_hands()
     C.set_deck_order('identity')
     warnings.simplefilter('ignore')
     autos = tuple(a for a in Automation if a != Automation.HOLE_CARDS_SHOWING_OR_MUCKING
-                  and not (split_flop and a == Automation.BOARD_DEALING))
+                  and not (split_flop and a == Automation.BOARD_DEALING)
+                  and not (one_by_one and a == Automation.HOLE_DEALING))
     cfg: dict = dict(n=n, stacks=(stack,) * n, antes=0, blinds=(1, 2), automations=autos, mode=Mode.CASH_GAME)
     if code == 'FT':
         cfg.update(small_bet=2, big_bet=4)
@@ -64,6 +66,10 @@ def h_protocol(ctx: Any, code: str, n: int, depth: int, stack: int = 200, split_
         guard += 1
         ctx.check(guard < 200, 'no-termination')
         sync_boards()
+        if one_by_one and st.can_deal_hole():
+            # hole cards dealt one card per operation, round the table (and written uncompressed below)
+            st.deal_hole()
+            continue
         if split_flop and st.can_deal_board():
             # the board of a street put out in several calls (pokerkit permits it)
             street_of_board_op.append(st.street_index)
@@ -98,6 +104,17 @@ def h_protocol(ctx: Any, code: str, n: int, depth: int, stack: int = 200, split_
             if not st.all_in_status and ctx.flag(f'muck{guard}') and st.can_show_or_muck_hole_cards(False):
                 st.show_or_muck_hole_cards(False)
                 ctx.cover('voluntary-muck')
+            elif partial and not st.all_in_status and ctx.flag(f'part{guard}'):
+                # cash game: only ONE of the two cards is turned over (the first or the second)
+                which = st.hole_cards[idx][1 if ctx.flag(f'second{guard}') else 0]
+                if st.can_show_or_muck_hole_cards((which,)):
+                    op = st.show_or_muck_hole_cards((which,))
+                    shown[idx] = shown.get(idx, '') + ''.join(repr(c) for c in op.hole_cards if c and repr(c) not in shown.get(idx, ''))
+                    ctx.cover('partial-show')
+                else:
+                    op = st.show_or_muck_hole_cards()
+                    if op.hole_cards:
+                        shown[idx] = ''.join(repr(c) for c in op.hole_cards)
             else:
                 op = st.show_or_muck_hole_cards()
                 if op.hole_cards:
@@ -116,7 +133,7 @@ def h_protocol(ctx: Any, code: str, n: int, depth: int, stack: int = 200, split_
         board = ''.join('/' + per_street[k] for k in sorted(per_street))
     else:
         board = ''.join('/' + ''.join(repr(c) for c in op.cards) for op in st.operations if type(op).__name__ == 'BoardDealing')
-    hh = HandHistory.from_game_state(game, st, hand=7)
+    hh = HandHistory.from_game_state(game, st, not (one_by_one or (split_flop and ctx.flag('uncompressed'))), hand=7)
     # ---- Pluribus line
     if code == 'NT':
         try:
@@ -144,7 +161,7 @@ def h_protocol(ctx: Any, code: str, n: int, depth: int, stack: int = 200, split_
                              if type(o).__name__ in ('Folding', 'CheckingOrCalling', 'CompletionBettingOrRaisingTo')]
         ctx.check(bet_ops(end) == bet_ops(st), 'parsed-history-replays-to-different-actions',
                   lambda: f'{line}: {bet_ops(end)} vs {bet_ops(st)}')
-        if not any(True for _ in [0] if 'voluntary-muck' in ctx.covered):
+        if 'voluntary-muck' not in ctx.covered and 'partial-show' not in ctx.covered:
             ctx.check(list(end.stacks) == list(st.stacks), 'parsed-history-replays-to-different-stacks',
                       lambda: f'{line}: {end.stacks} vs {st.stacks}')
             ctx.check(back[0].to_pluribus_protocol() == line, 'line-not-reproduced', lambda: f'{back[0].to_pluribus_protocol()} vs {line}')
@@ -183,6 +200,13 @@ def jobs(tier: str, seed: int) -> list[dict]:
                             must_cover=['acpc'] + (['pluribus'] if code == 'NT' else [])))
     out.append(dict(name='NT/n2/d2/flop-card-by-card', fn='h_protocol', traced=False,
                     params=dict(code='NT', n=2, depth=2, split_flop=True), budget_s=B, must_cover=['acpc', 'pluribus']))
+    out.append(dict(name='NT/n2/d2/partial-shows', fn='h_protocol', traced=False,
+                    params=dict(code='NT', n=2, depth=2, partial=True), budget_s=B, must_cover=['acpc', 'pluribus', 'partial-show']))
+    out.append(dict(name='FT/n3/d1/partial-shows', fn='h_protocol', traced=False,
+                    params=dict(code='FT', n=3, depth=1, partial=True), budget_s=B, must_cover=['acpc', 'partial-show']))
+    out.append(dict(name='NT/n3/d2/one-card-deals/uncompressed', fn='h_protocol', traced=False,
+                    params=dict(code='NT', n=3, depth=2, one_by_one=True, split_flop=True), budget_s=B,
+                    must_cover=['acpc', 'pluribus']))
     out.append(dict(name='NT/n2/d5/short', fn='h_protocol', traced=False,
                     params=dict(code='NT', n=2, depth=5, stack=20), budget_s=B, must_cover=['acpc', 'pluribus']))
     # 4-6 players (the quantifier's upper end): fewer symbolic decisions, then check/call-down
